@@ -63,7 +63,7 @@ class KappaTruthiness(AnalysisError):
     def __init__(self, clsname, op, summ):
         AnalysisError.__init__(self, "xnum.%s: kappa depends on the truthiness of the constructor parameter" % clsname)
         self.clsname, self.op, self.summ = clsname, op, summ
-        self.violation = ("KAPPA-PARAM", "xnum.%s" % clsname, "self.kprec is the constructor parameter only when the parameter is truthy (`k or c` / conditional on k): for k = 0, a legitimate kappa (Fromm's scheme), the stencil is that of another kappa", "kappa-truthy")
+        self.violation = ("KAPPA-PARAM", "xnum.%s" % clsname, "self.kprec is the constructor parameter only when the parameter is truthy (`k or c` / conditional on k): for k = 0, a legitimate kappa (Fromm's scheme), the stencil is that of another kappa", "kappa-truthy", {"C11", "C15"})       # the properties whose statement quantifies over kappa
 
 
 class _CondLog(list):
